@@ -739,8 +739,19 @@ impl<W: Write + io::Seek> ZipWriter<W> {
             .large_file(file.compressed_size().max(file.size()) > spec::ZIP64_BYTES_THR)
             .last_modified_time(file.last_modified())
             .compression_method(file.compression());
-        if let Some(perms) = file.unix_mode() {
-            options = options.unix_permissions(perms);
+        if let Some(mode) = file.unix_mode() {
+            // The whole mode word is taken over, not only `mode & 0o777`: without the file type
+            // a mode of 000 would give all-zero attributes, which read back as "no mode recorded"
+            // (and a symbolic link would become a regular file). A mode that names no file type
+            // gets the one `start_file` / `add_directory` would record.
+            let file_type = if mode & 0o170000 != 0 {
+                0
+            } else if file.is_dir() {
+                0o040000
+            } else {
+                0o100000
+            };
+            options.permissions = Some(mode | file_type);
         }
 
         let raw_values = ZipRawValues {
